@@ -93,7 +93,7 @@ fn run(steps: usize) {
                 Ok(()) => {
                     assert!(at == SLOTS);
                     m.present[free] = true; m.id[free] = id; m.deadline[free] = dl; m.rx[free] = Some(rx);
-                    let armed = match t.request_data.entry(id) { crate::verif_env::Entry::Occupied(o) => instant_parts(t.deadlines.deadline_of(&o.get().deadline_key)), _ => { assert!(false); (0, 0) } };
+                    let armed = instant_parts(t.deadlines.due_of_value(&id));
                     if le(now, dl) { assert!(armed == dl); } else { assert!(armed == now); }
                 }
                 Err(_) => { assert!(at < SLOTS); std::mem::forget(rx); }
